@@ -133,3 +133,45 @@ func walletLockedField(p *ir.Prog) *types.Var {
 func walletMuField(p *ir.Prog) *types.Var {
 	return p.FieldOr("wallet", "SingleAddressWallet", "mu", isMutex)
 }
+
+// bucketWrapperFns: the functions through which DBStore reads and writes its buckets — the methods of the small
+// wrapper type struct{DBBucket; *DBStore}, or, when the wrapper was dissolved, the DBStore methods that take the
+// DBBucket as their first parameter.
+func bucketWrapperFns(p *ir.Prog) (out []*ir.Func) {
+	name := ""
+	func() {
+		defer func() { _ = recover() }()
+		name = dbBucketType(p)
+	}()
+	if name != "" {
+		return p.MethodsOf("chain", name)
+	}
+	for _, f := range p.MethodsOf("chain", "DBStore") {
+		sig := f.Obj.Type().(*types.Signature)
+		if sig.Params().Len() > 0 && ir.IsNamed(sig.Params().At(0).Type(), ir.PkgPath("chain"), "DBBucket") {
+			if _, isPtr := sig.Params().At(0).Type().(*types.Pointer); !isPtr {
+				out = append(out, f)
+			}
+		}
+	}
+	if len(out) == 0 {
+		ir.Fail("neither a bucket wrapper type nor DBStore methods taking a DBBucket found")
+	}
+	return out
+}
+
+// isBucketWrapperFn reports whether fn is one of bucketWrapperFns, and how many leading parameters name the bucket.
+func isBucketWrapperFn(p *ir.Prog, fn *types.Func) (is bool, skip int) {
+	if fn == nil {
+		return false, 0
+	}
+	for _, f := range bucketWrapperFns(p) {
+		if f.Obj == fn {
+			if rn := recvNamed(fn); rn != nil && rn.Obj().Name() == "DBStore" {
+				return true, 1
+			}
+			return true, 0
+		}
+	}
+	return false, 0
+}
